@@ -32,7 +32,25 @@ func TestMain(m *testing.M) {
 		syscall.Setrlimit(syscall.RLIMIT_AS, &cur)
 	}
 	debug.SetMaxStack(512 << 20)
-	os.Exit(m.Run())
+	// The Go fuzzer discards the standard error of its worker processes, so a fatal error of the runtime (out of
+	// memory, stack overflow) would leave no trace: workers write it to $VERIF_OUT/fuzzworker-<pid>.stderr.
+	var workerLog string
+	for _, a := range os.Args[1:] {
+		if a == "-test.fuzzworker" && os.Getenv("VERIF_OUT") != "" {
+			os.MkdirAll(os.Getenv("VERIF_OUT"), 0o755)
+			workerLog = filepath.Join(os.Getenv("VERIF_OUT"), fmt.Sprintf("fuzzworker-%d.stderr", os.Getpid()))
+			if f, err := os.OpenFile(workerLog, os.O_CREATE|os.O_WRONLY|os.O_APPEND, 0o644); err == nil {
+				syscall.Dup2(int(f.Fd()), 2)
+			}
+		}
+	}
+	code := m.Run()
+	if workerLog != "" {
+		if st, err := os.Stat(workerLog); err == nil && st.Size() == 0 {
+			os.Remove(workerLog)
+		}
+	}
+	os.Exit(code)
 }
 
 // corpusRoot is <verif>/corpus/C10: $VERIF_CORPUS if set, else derived from the location of this source file.
